@@ -103,6 +103,11 @@ impl Dir {
     pub fn buffered(&self) -> usize {
         self.buf.len()
     }
+    /// Wakes both ends (after the director changed the pipe's state).
+    pub fn kick(&mut self) {
+        self.wake_reader();
+        self.wake_writer();
+    }
     fn wake_reader(&mut self) {
         if let Some(w) = self.reader_waker.take() {
             w.wake();
